@@ -232,4 +232,18 @@ var Controls = []Control{
 	{"C20", "code decoder declines the zero code", "extgrpc/ext_grpc.go", `wp, ok := payload\.\(\*EncodedGrpcCode\)\n\tif !ok \{`, "wp, ok := payload.(*EncodedGrpcCode)\n\tif !ok || wp.Code == 0 {", "R-DECLINE"},
 	{"C09", "empty lines written as an empty separator outside the verbose mode", "errbase/format_error.go", `emptyLine := sep\n\t\t\t\tif s\.wantDetail \{\n\t\t\t\t\temptyLine = detailSep\[:len\(detailSep\)-1\]\n\t\t\t\t\}`, "emptyLine := detailSep[:len(sep)-1]", "R-WRITE-FAITHFUL"},
 	{"C07", "empty lines collapse in a barrier's message", "errbase/format_error.go", `emptyLine := sep\n\t\t\t\tif s\.wantDetail \{\n\t\t\t\t\temptyLine = detailSep\[:len\(detailSep\)-1\]\n\t\t\t\t\}`, "emptyLine := detailSep[:len(sep)-1]", "R-WRITE-FAITHFUL"},
+	// round 7
+	{"C04", "decoder fills a default into the received message", "errbase/decode.go", `\t// Do we have a wrapper decoder for this\?\n`, "\tif enc.Details.ErrorTypeMark.FamilyName == \"\" {\n\t\tenc.Details.ErrorTypeMark.FamilyName = enc.Details.OriginalTypeName\n\t}\n\t// Do we have a wrapper decoder for this?\n", "R-DECODE-READONLY"},
+	{"C05", "multi-cause registry keeps a nil decoder", "errbase/decode.go", `func RegisterMultiCauseDecoder\(theType TypeKey, decoder MultiCauseDecoder\) \{\n\tif decoder == nil \{\n\t\tdelete\(multiCauseDecoders, theType\)\n\t\} else \{\n\t\tmultiCauseDecoders\[theType\] = decoder\n\t\}\n\}`, "func RegisterMultiCauseDecoder(theType TypeKey, decoder MultiCauseDecoder) {\n\tmultiCauseDecoders[theType] = decoder\n}", "R-REGISTRY-NONNIL"},
+	{"C08", "domain marker truncated", "domains/with_domain.go", `func \(e \*withDomain\) ErrorKeyMarker\(\) string \{ return string\(e\.domain\) \}`, "func (e *withDomain) ErrorKeyMarker() string {\n\td := string(e.domain)\n\tif len(d) > 40 {\n\t\td = d[:40]\n\t}\n\treturn d\n}", "R-KEY-MARKER"},
+	{"C12", "safe details skipped for an empty format alone", "safedetails/safedetails.go", `if len\(format\) == 0 && len\(args\) == 0 \{`, "if len(format) == 0 {", "R-PASSTHROUGH-GUARD"},
+	{"C13", "nested joins spliced into the new node", "join/join.go", `\t\t\te\.errs = append\(e\.errs, err\)\n`, "\t\t\tif j, ok := err.(*joinError); ok {\n\t\t\t\te.errs = append(e.errs, j.errs...)\n\t\t\t} else {\n\t\t\t\te.errs = append(e.errs, err)\n\t\t\t}\n", "R-JOIN-ELEMENTS"},
+	{"C14", "UnwrapMulti only for errors without a single cause", "errbase/unwrap.go", `if me, ok := err\.\(interface\{ Unwrap\(\) \[\]error \}\); ok \{`, "if me, ok := err.(interface{ Unwrap() []error }); ok && UnwrapOnce(err) == nil {", "R-MULTI-UNCOND"},
+	{"C15", "GetDomain jumps to the root cause", "domains/domains.go", `if c := errbase\.UnwrapOnce\(err\); c != nil \{\n\t\t\terr = c`, "if c := errbase.UnwrapAll(err); c != nil && c != err {\n\t\t\terr = c", "R-DOMAIN-GETTER"},
+	{"C17", "type key built from a trimmed type name", "errbase/encode.go", `return makeTypeKey\(pkgPath, t\.String\(\)\)`, "return makeTypeKey(pkgPath, strings.TrimSuffix(t.String(), \" \"))", "R-TYPENAME-RAW"},
+	{"C18", "package-level As target in an OS predicate", "oserror/oserror.go", `\tif o := \(\*errbase\.OpaqueErrno\)\(nil\); errors\.As\(err, &o\) \{\n\t\treturn o\.Is\(ErrPermission\)\n\t\}\n\treturn false\n\}`, "\tif errors.As(err, &sharedOpaqueErrno) {\n\t\treturn sharedOpaqueErrno.Is(ErrPermission)\n\t}\n\treturn false\n}\n\nvar sharedOpaqueErrno *errbase.OpaqueErrno", "R-GLOBAL-ADDR"},
+	{"C04", "forwarded barrier recomputes its safe details", "barriers/barriers.go", `\tdetails = e\.receivedDetails\n\tif details == nil \{\n\t\tdetails = e\.SafeDetails\(\)\n\t\}\n`, "\tdetails = e.SafeDetails()\n", "R-REENCODE-STABLE"},
+	{"C04", "secondary-error encoder sends recomputed safe details", "secondary/with_secondary.go", `return "", nil, &enc`, `return "", e.SafeDetails(), &enc`, "R-REENCODE-STABLE"},
+	{"C09", "hint printed only above another layer", "hintdetail/with_hint.go", `\tif p\.Detail\(\) \{\n\t\tp\.Print\(w\.hint\)`, "\tif p.Detail() && errbase.UnwrapOnce(w.cause) != nil {\n\t\tp.Print(w.hint)", "R-DETAIL-PRINT"},
+	{"C11", "pkg/errors stack layer sends at most 32 frames", "errbase/adapters.go", `\tsafeDetails := \[\]string\{fmt\.Sprintf\("%\+v", iErr\.StackTrace\(\)\)\}\n\treturn "" /\* withStack`, "\tst := iErr.StackTrace()\n\tif len(st) > 32 {\n\t\tst = st[:32]\n\t}\n\tsafeDetails := []string{fmt.Sprintf(\"%+v\", st)}\n\treturn \"\" /* withStack", "R-STACK-WHOLE"},
 }
